@@ -8,7 +8,7 @@ import coregen, stagegen
 
 MODULES = ["Mimium.Props.C09"]
 # (profile, cases, backends)
-QUICK = [("core", 700, "vm"), ("scalar", 500, "vm,wasm"), ("deep", 150, "vm")]
+QUICK = [("core", 1500, "vm"), ("scalar", 1000, "vm,wasm"), ("deep", 300, "vm")]
 THOROUGH = [("core", 6000, "vm"), ("scalar", 4000, "vm,wasm"), ("deep", 1500, "vm")]
 
 
